@@ -993,6 +993,15 @@ struct RObs {
 struct RExclude { // open known findings (see known_findings.json): the class is not asked while the tag is excluded
     bool static_find_by_equality{false}, flat_erase_by_equality{false}, static_hetero_count{false}, flat_hetero_count{false};
 };
+// sub-property name carrying the open-finding classes that are excluded in this run (replays must see the same ones)
+auto with_excl(std::string sub) -> std::string
+{
+    std::string tags;
+    for (char const* t : {"static_set.find_by_equality", "static_set.hetero_count", "flat_set.hetero_count", "flat_set.erase_by_equality"}) {
+        if (vf::ctx().excluded(t)) { tags += (tags.empty() ? "" : ",") + std::string(t); }
+    }
+    return tags.empty() ? sub : sub + " excluding=" + tags;
+}
 auto rexclude() -> RExclude
 {
     auto const& c = vf::ctx();
@@ -1488,6 +1497,7 @@ void enum_rec_histories(vf::Ctx& /*c: sharding is done by vf::enum_histories*/)
         }
         bool failed   = false;
         auto const& z = alpha[0];
+        auto const sub = with_excl("enum_rec_histories");
         vf::enum_histories(ci, alpha, 3, [&](OpsCase const& k) {
             if (failed) { return; }
             std::size_t tail = 0; // compare after op i only where everything behind i is alpha[0] (see enum_short_histories)
@@ -1496,12 +1506,12 @@ void enum_rec_histories(vf::Ctx& /*c: sharding is done by vf::enum_histories*/)
                 if (o.code != z.code || o.a != z.a || o.b != z.b || o.c != z.c) { break; }
                 ++tail;
             }
-            vf::Flight<OpsCase> fl("enum_rec_histories", k);
+            vf::Flight<OpsCase> fl(sub.c_str(), k);
             vf::eval("enum_rec_histories");
             auto d = run_case(k, 1, k.ops.size() - 1 - tail);
             if (!d.empty()) {
                 failed = true;
-                vf::mismatch("enum_rec_histories", k, d);
+                vf::mismatch(sub.c_str(), k, d);
             }
         });
     }
@@ -1559,6 +1569,7 @@ void vf_run(vf::Ctx& c)
             return k;
         });
         std::string sub = std::string("histories/") + cfg.name;
+        if (cfg.kind == 3) { sub = with_excl(sub); }
         vf::rc_check<OpsCase>(sub.c_str(), gen, per_cfg, 100, [&](OpsCase const& k) {
             vf::eval("histories");
             auto d = run_case(k, 2);
@@ -1570,8 +1581,9 @@ void vf_run(vf::Ctx& c)
 
 std::string vf_replay(std::string const& sub, std::string const& cs)
 {
-    // known-finding probes are replayed without --exclude; a probe whose case would first run into ANOTHER open
-    // finding names the tags to leave out in its sub: "<anything> excluding=tag1,tag2"
+    // bin/check replays (known-finding probes, ddmin, 3x confirmation) without --exclude, so the exclusions a case was
+    // found under travel in its sub: "<name> excluding=tag1,tag2" (see with_excl()).  A probe whose case would first run
+    // into ANOTHER open finding names that finding's tag the same way.
     if (auto at = sub.find("excluding="); at != std::string::npos) {
         std::stringstream ss(sub.substr(at + 10));
         std::string t;
